@@ -21,3 +21,15 @@ show("KF-C09-1 empty header value", headers={"X-T": ""})
 show("KF-C09-2 text body starting with @", body="@/etc/hostname", media_type="text/plain")
 show("KF-C09-3 multipart boundary", body={"f": "a"}, media_type="multipart/form-data")
 show("KF-C09-4 newline in path, sanitisation on", sanitize=True, path_parameters={"x": "a\nb"})
+
+# KF-C09-R1 (review round 2): a header given to call() whose name requests also sets by default is dropped from the command
+def show_r1(name, value):
+    schema = schemathesis.openapi.from_dict(doc).configure(base_url=f"http://127.0.0.1:{srv.server_port}", output=OutputConfig(sanitize=False))
+    case = schema["/p/{x}"]["POST"].Case(path_parameters={"x": "1"}); got = []
+    class R(H):
+        def do_POST(self): got.append(self.headers.get(name)); super().do_POST()
+    srv.RequestHandlerClass = R
+    response = case.call(headers={name: value}); cmd = case.as_curl_command(headers=dict(response.request.headers), verify=response.verify)
+    subprocess.run(["sh", "-c", cmd], capture_output=True, cwd="/"); print("KF-C09-R1", name, "\n  command   :", cmd, "\n  original  :", got[0], "\n  reproduced:", got[1])
+    assert got[0] == value and got[1] != value
+show_r1("Accept", "application/xml"); show_r1("User-Agent", "my-client/1"); show_r1("Accept-Encoding", "identity")
